@@ -301,6 +301,12 @@ pub fn run(ctx: &Ctx) -> (Spec, Report) {
                     if matches!(l, LangId::Swift | LangId::Kotlin) && rng.coin() {
                         c.prefix = "Pf".into();
                     }
+                    // package shape decides how Scala and Kotlin wrap the definitions (package object / nested packages / none)
+                    match l {
+                        LangId::Scala => c.package = rng.pick(&["com.verif.gen", "com.verif.gen", "pkg", "two.parts"]).to_string(),
+                        LangId::Kotlin => c.package = rng.pick(&["com.verif.gen", "com.verif.gen", "pkg", ""]).to_string(),
+                        _ => {}
+                    }
                     (*l, c)
                 })
                 .collect();
@@ -393,7 +399,7 @@ pub fn run(ctx: &Ctx) -> (Spec, Report) {
     }
     let spec = Spec {
         level: "exploration",
-        rule: format!("{n} generated files mixing annotated and un-annotated items at module depth 0-4 and inside function bodies / anonymous const blocks, a quarter of them with two structs of one Rust identifier in two modules (different serde names), #[typeshare] / #[typeshare::typeshare] / with arguments, serde(skip) / typeshare(skip) on random subsets of fields, variants and struct-variant fields, any attribute order, five source layouts (rustfmt-like, attribute behind another attribute or a block comment on the same line, all attributes and the item on one line, CRLF + tabs), x up to 6 languages; definitions and members are attributed to source elements by unique stems and compared with the generator's item list (count, kind, order); decoy and skipped stems are searched over the whole output; plus the real binary with the input named twice (same directory twice, a directory and one of its sub-directories, in both orders): byte-identical to naming it once; plus 'cannot be generated' cells (const / union / DateTime per backend): error or definition, never success without definition; distinct = (language, item kind, module depth, annotation spelling) and (language, struct-variant, has-skipped)"),
+        rule: format!("{n} generated files (Scala and Kotlin under dotted / single-segment / two-segment / absent packages) mixing annotated and un-annotated items at module depth 0-4 and inside function bodies / anonymous const blocks, a quarter of them with two structs of one Rust identifier in two modules (different serde names), #[typeshare] / #[typeshare::typeshare] / with arguments, serde(skip) / typeshare(skip) on random subsets of fields, variants and struct-variant fields, any attribute order, five source layouts (rustfmt-like, attribute behind another attribute or a block comment on the same line, all attributes and the item on one line, CRLF + tabs), x up to 6 languages; definitions and members are attributed to source elements by unique stems and compared with the generator's item list (count, kind, order); decoy and skipped stems are searched over the whole output; plus the real binary with the input named twice (same directory twice, a directory and one of its sub-directories, in both orders): byte-identical to naming it once; plus 'cannot be generated' cells (const / union / DateTime per backend): error or definition, never success without definition; distinct = (language, item kind, module depth, annotation spelling) and (language, struct-variant, has-skipped)"),
         assumptions: vec!["stems (q + 5 letters, no other 'q' in generated words) identify source elements after case conversion".into()],
         exhaustive: None,
     };
